@@ -210,7 +210,7 @@ def brief(inst):
 def check_instance(c, inst, pending):
     """run the real code; queue the model lines; returns a record used after the driver ran"""
     out, pr = S.run_instance(inst)
-    rec = {"inst": inst, "out": out, "caps": pr.cap, "lines": [], "certs": []}
+    rec = {"inst": inst, "out": out, "caps": pr.cap, "lines": [], "certs": [], "failed": getattr(pr, "failed", None)}
     prios = S.priorities_of(inst)
     c.hit("mode/" + inst["mode"])
     c.hit("solver/" + inst["solver"])
@@ -382,6 +382,15 @@ def judge(c, rec, outs):
             except ValueError:
                 st = "skip"
             c.hit("failed-priority/independent-" + st)
+            if st == "optimal" and rec["failed"] is not None:
+                # the documented problem has a solution: decide (independently of the solver that failed)
+                # whether the constraint system actually handed to the solver is infeasible
+                verdict = O.lp_feasible(rec["failed"])
+                c.hit("failed-priority/real-system-" + verdict)
+                if verdict == "infeasible":
+                    c.fail("the constraint system handed to the solver is infeasible although the documented "
+                           "problem of that priority has a solution",
+                           {"inst": case, "priority": (k, prios[k][0])}, {"documented_optimum": opt})
 
 
 def run_stream(c, n, **gen_kw):
